@@ -48,6 +48,7 @@ class Runner:
         self.probes = probes
         self.ev = []
         self.calls = []
+        self.roots = [self.trie.root_hash]      # every root the trie had (targets of "checkout")
 
     def apply(self, a, k, v):
         n = len(self.ev)
@@ -62,6 +63,12 @@ class Runner:
                     trie[k] = v
             elif a == "del":
                 [trie.delete, trie.__delitem__, lambda key: trie.set(key, b"")][n % 3](k)
+            elif a == "checkout":
+                # v carries the root hash the trie is pointed back at
+                if n % 2 or v not in db:
+                    trie.root_hash = v
+                else:
+                    trie.root_node = db[v]
             else:
                 trie.delete_subtrie(k)
             ok = True
@@ -79,7 +86,10 @@ class Runner:
             except Exception:  # noqa
                 look.append([bits_of(p), [238, 4]])
         gone = len([h for h, body in before.items() if db.get(h) != body])
-        self.ev.append({"a": a, "k": bits_of(k), "v": list(unval(v)), "ok": bool(ok), "crash": ok is None,
+        self.roots.append(trie.root_hash)
+        ck = a == "checkout"
+        self.ev.append({"a": a, "k": [] if ck else bits_of(k), "v": [0, 0] if ck else list(unval(v)),
+                        "root": decode(db, v) if ck else [], "ok": bool(ok), "crash": ok is None,
                         "st": {"root": decode(db, trie.root_hash), "look": look, "gone": gone}})
 
     def trace(self):
@@ -136,8 +146,12 @@ def gen_trace(mod, rng):
         if x < 0.55:
             r.apply("set", rng.choice(probes if rng.random() < 0.2 else pool),
                     val(rng.choice([0x61, 0x80, 0xC8]), rng.choice([1, 2, 40])))
-        elif x < 0.85:
+        elif x < 0.8:
             r.apply("del", rng.choice(probes), b"")
+        elif x < 0.88:
+            olds = sorted(set(r.roots) - {r.trie.root_hash})
+            if olds:
+                r.apply("checkout", b"", rng.choice(olds))
         else:
             r.apply("delsub", rng.choice(probes), b"")
     return r.trace()
